@@ -17,7 +17,8 @@
 //!                          `A` -> `B`.  Old A/B removed, A (and B in twin mode) created empty.  `ok`
 //!   tree <tok>...          wipe the children of A (and B), then build (std/libc only), preorder:
 //!                          `D<name>` mkdir + descend, `U` up, `F<name>:<content>`, `L<name>:<target>`
-//!                          symlink, `P<name>` fifo.  Names 1..=255 bytes, no `/`, NUL, `.`, `..`, no
+//!                          symlink, `P<name>` fifo, `S<name>` unix socket (bound, listener dropped), `C<name>`
+//!                          character device (1,3), `B<name>` block device (7,250; never opened).  Names 1..=255 bytes, no `/`, NUL, `.`, `..`, no
 //!                          duplicates in one directory; targets non-empty, relative and lexically never
 //!                          above the sandbox root; else `bad-op` (nothing built).  Result `ok`
 //!                          (`err <E>` if std itself failed while building).
@@ -25,6 +26,8 @@
 //!                          script: the i-th WRITE syscall issued is performed for real with
 //!                          len = min(len, k_i) when k_i > 0; k_i == 0 / script exhausted = pass through
 //!   read <path>            fs::read: `ok <hex>` | `err <E>`
+//!   meta <path>            fs::metadata + fs::exists: `ok dfl=<is_dir><is_file><is_symlink> len=<n|-> ex=<0|1|err:E>`
+//!                          | `err <E> ex=..`; twin: std::fs::metadata + Path::try_exists in the same format
 //!   copy <src> <dst> [s..] fs::copy_file: `ok` | `err <E>`; script applies to COPY_FILE_RANGE (len = arg 4)
 //!   mkdirall <path>        fs::create_dir_all: `ok` | `err <E>`
 //!   rmall <path>           fs::remove_dir_all: `ok` | `err <E>`
@@ -59,7 +62,7 @@
 //! B path = the same relative path (cwd B), or the absolute path with the A prefix replaced by B.
 //!
 //! Dump (std::fs only, never follows symlinks): preorder, children sorted by name bytes, same
-//! grammar as `tree`: `D<name> .. U`, `F<name>:<content>`, `L<name>:<target>`, `P<name>`,
+//! grammar as `tree`: `D<name> .. U`, `F<name>:<content>`, `L<name>:<target>`, `P<name>`, `S<name>`, `C<name>`, `B<name>`,
 //! `X<name>` anything else; empty sandbox = `-`.  Something the observer could not read shows as a
 //! `?<errno>` token (never expected).
 //!
@@ -71,8 +74,9 @@
 //! ever leaves the sandbox.  More than 64 symlink expansions pass (the kernel fails with ELOOP at
 //! 40).  Then the longest existing prefix that `canonicalize`s must be at or below the canonical
 //! root.  `rmall`: the resolved location must be strictly below the root.  Ops that would open a
-//! FIFO (write/read/copy/rmall/readdir whose resolved target is a fifo) are refused too: the open
-//! would block forever.
+//! FIFO or a device node (write/read/copy/rmall/readdir whose resolved target is a fifo, character or
+//! block device) are refused too: the open would block forever / reach a driver.  Sockets are let
+//! through (the open fails with ENXIO).
 #![allow(clippy::all)]
 use std::collections::{HashSet, VecDeque};
 use std::ffi::{CString, OsStr, OsString};
@@ -392,7 +396,8 @@ fn guard_one(root: &[u8], root_canon: &Path, path: &[u8], kind: Kind) -> bool {
             }
             if ok && kind != Kind::Plain && vnames.len() == 1 {
                 if let Ok(md) = std::fs::symlink_metadata(os(&vnames[0])) {
-                    if md.file_type().is_fifo() {
+                    let ft = md.file_type();
+                    if ft.is_fifo() || ft.is_char_device() || ft.is_block_device() {
                         ok = false;
                     }
                 }
@@ -511,8 +516,16 @@ fn dump_dir(dir: &Path, out: &mut String) {
                 }
                 out.push(' ');
             }
-            Some(ft) if ft.is_fifo() => {
-                out.push('P');
+            Some(ft) if ft.is_fifo() || ft.is_socket() || ft.is_char_device() || ft.is_block_device() => {
+                out.push(if ft.is_fifo() {
+                    'P'
+                } else if ft.is_socket() {
+                    'S'
+                } else if ft.is_char_device() {
+                    'C'
+                } else {
+                    'B'
+                });
                 push_hex(out, &name);
                 out.push(' ');
             }
@@ -560,6 +573,9 @@ enum TOp {
     File(Vec<u8>, Vec<u8>),
     Link(Vec<u8>, Vec<u8>),
     Fifo(Vec<u8>),
+    Sock(Vec<u8>),
+    Chr(Vec<u8>),
+    Blk(Vec<u8>),
 }
 
 fn valid_name(n: &[u8]) -> bool {
@@ -593,12 +609,17 @@ fn parse_tree(toks: &[&str]) -> Option<Vec<TOp>> {
                 seen.push(HashSet::new());
                 ops.push(TOp::Dir(n));
             }
-            "P" => {
+            "P" | "S" | "C" | "B" => {
                 let n = unhex(rest)?;
                 if !fresh(&mut seen, &n) {
                     return None;
                 }
-                ops.push(TOp::Fifo(n));
+                ops.push(match h {
+                    "P" => TOp::Fifo(n),
+                    "S" => TOp::Sock(n),
+                    "C" => TOp::Chr(n),
+                    _ => TOp::Blk(n),
+                });
             }
             "F" | "L" => {
                 let (a, b) = rest.split_once(':')?;
@@ -671,6 +692,28 @@ fn build_tree(root: &[u8], ops: &[TOp]) -> std::io::Result<()> {
                     .map_err(|_| std::io::Error::from_raw_os_error(22))?;
                 if unsafe { mkfifo(c.as_ptr(), 0o644) } != 0 {
                     return Err(std::io::Error::last_os_error());
+                }
+            }
+            TOp::Sock(n) => {
+                // sun_path holds 107 bytes: bind a short name inside the directory, then rename it into place
+                std::env::set_current_dir(&cur)?;
+                let r = std::os::unix::net::UnixListener::bind(".c14sk").and_then(|l| {
+                    drop(l);
+                    std::fs::rename(".c14sk", os(n))
+                });
+                let _ = std::env::set_current_dir("/");
+                r?;
+            }
+            TOp::Chr(n) | TOp::Blk(n) => {
+                // a character device (1,3 = null) / a block device number nothing is attached to; never opened
+                let chr = matches!(op, TOp::Chr(_));
+                let p = cur.join(os(n));
+                let c = CString::new(p.as_os_str().as_bytes())
+                    .map_err(|_| std::io::Error::from_raw_os_error(22))?;
+                let (mode, dev) = if chr { (0o020000 | 0o644, (1usize << 8) | 3) } else { (0o060000 | 0o644, (7usize << 8) | 250) };
+                let r = unsafe { sc::raw_syscall6(sc::nr::MKNOD, c.as_ptr() as usize, mode, dev, 0, 0, 0) } as isize;
+                if r < 0 {
+                    return Err(std::io::Error::from_raw_os_error((-r) as i32));
                 }
             }
         }
@@ -1092,6 +1135,58 @@ fn handle(sb: &Sb, w: &[&str]) -> String {
                     Ok(b) => format!("ok {}", hex(&b)),
                     Err(e) => format!("err {}", io_e(&e)),
                 })
+            } else {
+                None
+            };
+            finish(sb, res, stdres)
+        }
+        ["meta", p] => {
+            let p = match unhex(p) {
+                Some(p) => p,
+                None => return BAD.to_string(),
+            };
+            if !sb.guard(&[(&p, Kind::Plain)]) || !sb.enter_a() {
+                return BAD.to_string();
+            }
+            let pz = nul_terminated(&p);
+            let b01 = |b: bool| if b { '1' } else { '0' };
+            let res = under_test(|| {
+                let m = match tiny_std::fs::metadata(ustr(&pz)) {
+                    Ok(m) => format!(
+                        "ok dfl={}{}{} len={}",
+                        b01(m.is_dir()),
+                        b01(m.is_file()),
+                        b01(m.is_symlink()),
+                        if m.is_file() { m.len().to_string() } else { "-".to_string() }
+                    ),
+                    Err(e) => format!("err {}", tiny_e(&e)),
+                };
+                let ex = match tiny_std::fs::exists(ustr(&pz)) {
+                    Ok(b) => b01(b).to_string(),
+                    Err(e) => format!("err:{}", tiny_e(&e)),
+                };
+                format!("{} ex={}", m, ex)
+            });
+            let stdres = if sb.twin {
+                if !sb.enter_b() {
+                    return BAD.to_string();
+                }
+                let pb = sb.map_b(&p);
+                let m = match std::fs::metadata(os(&pb)) {
+                    Ok(m) => format!(
+                        "ok dfl={}{}{} len={}",
+                        b01(m.is_dir()),
+                        b01(m.is_file()),
+                        b01(m.file_type().is_symlink()),
+                        if m.is_file() { m.len().to_string() } else { "-".to_string() }
+                    ),
+                    Err(e) => format!("err {}", io_e(&e)),
+                };
+                let ex = match Path::new(os(&pb)).try_exists() {
+                    Ok(b) => b01(b).to_string(),
+                    Err(e) => format!("err:{}", io_e(&e)),
+                };
+                Some(format!("{} ex={}", m, ex))
             } else {
                 None
             };
